@@ -109,6 +109,14 @@ def run(ctx):
     for k in range(n):
         sc = pipeline.gen_scenario(rng, max_levels=4, max_leaves=8, n_cells=rng.randrange(3, 9))
         var = paired.base_var(rng, sc, factor=1.0)
+        # a third of the scenarios map with a level dropped or flattened: the inferred (back-filled) levels of a cell
+        # must not depend on its company either
+        r_cfg = rng.random()
+        if r_cfg < 0.17:
+            var['flatten'] = True
+        elif r_cfg < 0.34 and len(sc.tree.levels) > 1:
+            var['drop_level'] = rng.choice(sc.tree.levels[:-1])
+        ctx.dist('reduction', 'flatten' if var['flatten'] else ('drop' if var['drop_level'] else 'none'))
         raw = rng.random() < 0.4
         if raw:
             sc.query = np.array([[float(rng.randrange(0, 50)) for _ in sc.query_genes] for _ in sc.cell_ids])
@@ -175,7 +183,7 @@ def run(ctx):
                 diff = paired.compare_records(b[src], v[cid], sc.tree.levels)
                 if diff:
                     j = ids.index(cid)
-                    if paired.near_tie_cell(sc, r['output'], np.asarray(q)[j], sc.query_genes, norm):
+                    if paired.near_tie_cell(sc, r['output'], np.asarray(q)[j], sc.query_genes, norm, flatten=vv['flatten'], drop_level=vv['drop_level']):
                         ctx.extra['near_ties_excused'] = ctx.extra.get('near_ties_excused', 0) + 1
                         continue
                     ctx.disagreements_checked += 1
